@@ -460,9 +460,12 @@ def r4(k: Kit) -> None:
                 # only names that come from a directory listing entry
                 from ..flow import expr_sources
                 leaves, free = expr_sources(g, rd, node.id, call.args[1])
+                from ..flow import depends_on
                 from_listing = any(
                     isinstance(x, ast.Attribute) and x.attr == 'filename'
-                    for lf in leaves for x in walk_shallow(lf))
+                    for lf in leaves for x in walk_shallow(lf)) or any(
+                        d.endswith('.filename') for d in
+                        depends_on(g, rd, node.id, call.args[1]))
                 if not from_listing:
                     continue
                 if qual.endswith('_copy') and \
@@ -473,7 +476,13 @@ def r4(k: Kit) -> None:
                 for kd in ('dotdot', 'slash'):
                     def val(n: Node, kd=kd) -> Optional[bool]:
                         return False if kind(n) == kd else None
-                    w = g.guarded_by(node.id, val)
+                    # the test must apply to the value as finally joined:
+                    # start from every definition of the name that reaches
+                    # the join
+                    w = None
+                    for d in rd.defs_of(node.id, var):
+                        st = g.entry if d < 0 else d
+                        w = w or g.guarded_by(node.id, val, start=st)
                     rep.check(w is None, 'C13.R4',
                               key(fi, f'join {norm(call.args[0])} '
                                   f'rejects {kd}'),
